@@ -823,3 +823,355 @@ def run(ctx):
 
 # evidence: how the model is tied to the source on every run (as built, supersedes the value above)
 TIE = "translator (window -> Gen/KoWindow, bandwidth functions and smoothing frame -> Gen/FreqBand; Props/C07Gen, C07GenBand) + correspondence (exact rational kernel on the impl's raw weights; Float twin)"
+
+
+# ---- extras3 (hx_r7b, round 7): histories on ONE object that bring it back to a state that "looks like" an earlier one ----------------------------
+#
+# (a) the Fourier spectrum regenerated with explicit padded lengths / p2_plus / after a record change, the smoothed spectrum regenerated after
+#     each: padded lengths 2k and 2k+1 have the same NUMBER of Fourier points on different grids; p2_plus and a longer record change the number of
+#     points but keep the first/last frequencies close; a new record of another length may fall back on an earlier padded length.
+# (b) words over every entry point that sets the smoothing frequencies which RETURN to an earlier (range, count) -- also the constructor's --
+#     after the frequencies were replaced through another entry point with the same count / the same ends.
+# The expected state is tracked from the ARGUMENTS; every step is judged (==) against the array-level function on the object's current Fourier
+# spectrum, against a fresh object regenerated the same way, and (subset of targets) against the Konno-Ohmachi window written out with NumPy.
+# Not demanded: gen_fa_spectrum does not drop the cached smoothed spectrum in the pinned library (a read after it returns the old one); the
+# family regenerates explicitly after every gen_fa_spectrum (a value reset does drop it: there a plain read is used too).
+
+def _x3_judge(ctx, o, cls, cur_v, dt, cur_sm, cur_band, fa_kw, hin, held, loose_grid=False):
+    """one step of a history: the object's smoothed spectrum / frequencies vs (1) the array-level function on its own current Fourier spectrum,
+    (2) a fresh object brought to the same state directly, (3) the window formula; returns the (possibly ulp-adjusted) tracked frequencies"""
+    import eqsig
+    from eqsig import im
+    from eqsig.fns import frequency as fq
+    facts = {'history': list(hin['history'])}
+    got = call_impl(lambda: (np.array(o.smooth_fa_spectrum), np.array(o.smooth_fa_frequencies, dtype=float), np.array(o.smooth_fa_freqs, dtype=float),
+                             np.array(o.fa_frequencies), np.array(o.fa_spectrum)))
+    if got[0] != 'ok':
+        ctx.oracle('C07 smoothing returns on its domain (positive target frequencies)', False, hin, detail=got, facts=facts)
+        return cur_sm
+    s_obj, smv, smv2, fa_f, fa_s = got[1]
+    if loose_grid and not np.array_equal(smv, cur_sm):
+        ok_grid = _x2_close(smv, cur_sm, ulps=64)         # deprecated range / points setters: log10 -> logspace of the current ends (an ulp)
+        if ok_grid:
+            cur_sm = smv.copy()
+    else:
+        ok_grid = np.array_equal(smv, cur_sm) and np.array_equal(smv2, cur_sm)
+    ctx.oracle('C07 after any sequence of setters (smooth_fa_freqs / smooth_fa_frequencies / gen_smooth_fa_spectrum(smooth_fa_freqs) / set_smooth_fa_frequecies_by_range / deprecated '
+               'range and point setters) the smoothing frequencies are the ones LAST requested', ok_grid, hin, detail={'got': smv, 'want': cur_sm}, facts=facts)
+    with no_probe():
+        fresh = cls(np.array(cur_v), dt, smooth_fa_freqs=np.array(cur_sm))
+        if fa_kw is not None:
+            fresh.gen_fa_spectrum(**fa_kw)
+        fresh.gen_smooth_fa_spectrum(band=cur_band)
+        s_fresh, f_fresh, a_fresh = np.array(fresh.smooth_fa_spectrum), np.array(fresh.fa_frequencies), np.array(fresh.fa_spectrum)
+        want = call_impl(fq.calc_smooth_fa_spectrum, fa_f, fa_s, cur_sm, band=cur_band)
+    same_fa = f_fresh.shape == fa_f.shape and np.array_equal(f_fresh, fa_f) and np.array_equal(a_fresh, fa_s)
+    ctx.oracle('C07 after any history the object\'s Fourier spectrum and frequencies are those of a fresh object generated with the last requested padding (==)', same_fa, hin,
+               detail={'points': [len(fa_f), len(f_fresh)], 'df': [float(fa_f[1]) if len(fa_f) > 1 else None, float(f_fresh[1]) if len(f_fresh) > 1 else None]}, facts=facts)
+    ok = want[0] == 'ok' and s_obj.shape == np.asarray(want[1]).shape and np.array_equal(s_obj, np.asarray(want[1]), equal_nan=True)
+    ctx.oracle('C07.b after any history the object\'s smoothed spectrum == calc_smooth_fa_spectrum of its CURRENT Fourier spectrum at the LAST requested frequencies and bandwidth '
+               '(bandwidth 40 after a change of record or frequencies) (==)', ok, hin,
+               detail={'max_rel_dev': float(np.max(np.abs(s_obj - want[1]) / np.maximum(np.abs(want[1]), 1e-300))) if want[0] == 'ok' and s_obj.shape == np.asarray(want[1]).shape and s_obj.size else None},
+               facts=facts)
+    ctx.oracle('C07.b after any history the object\'s smoothed spectrum == that of a FRESH object given the same record, frequencies, padding and bandwidth (==)',
+               same_fa is False or (s_obj.shape == s_fresh.shape and np.array_equal(s_obj, s_fresh, equal_nan=True)), hin, facts=facts)
+    if len(fa_f) > 1 and len(cur_sm) and np.all(np.isfinite(s_obj)) and s_obj.shape == cur_sm.shape:
+        A = np.abs(fa_s[1:])
+        idx = sorted(set([0, len(cur_sm) - 1, len(cur_sm) // 2]))
+        W = _x2_ko_cols(cur_band, fa_f[1:], cur_sm[idx])
+        if np.all(np.isfinite(W)):
+            ctx.oracle('C07.a each smoothed amplitude is the weighted mean of the non-zero-frequency amplitudes with the normalised Konno-Ohmachi weights (NumPy, subset of targets) '
+                       '[after a history]', bool(np.all(np.abs(s_obj[idx] - A @ W) <= 1e-9 * max(float(A.max()), 1e-300))), {**hin, 'targets': idx},
+                       detail={'got': s_obj[idx], 'want': A @ W}, facts=facts)
+        if float(np.max(s_obj)) > 0 and np.all(np.diff(cur_sm) > 0):
+            okb = _x2_bandwidth_ok(im, o, want[1] if want[0] == 'ok' else s_obj, cur_sm, 0.707)
+            if okb is not None:
+                ctx.oracle('C07.d bandwidth limits are the first and last smoothing frequency above ratio*max of the smoothing of the CURRENT state, ordered, bracketing the smoothed peak '
+                           '[after a history]', okb, {**hin, 'ratio': 0.707}, facts=facts)
+    ctx.oracle('C07 smoothed spectra / frequency arrays read from an object earlier are not overwritten by later regenerations', all(np.array_equal(x, cp, equal_nan=True) for x, cp in held), hin,
+               facts=facts)
+    raw = call_impl(lambda: (o.smooth_fa_spectrum, o.smooth_fa_frequencies))
+    if raw[0] == 'ok':
+        held.extend((x, np.array(x, copy=True)) for x in raw[1] if isinstance(x, np.ndarray))
+    return cur_sm
+
+
+def _x3_pad(npts):
+    return 2 ** int(np.ceil(np.log2(npts)))
+
+
+def x3_fas_regen(ctx):
+    """(a) FAS regeneration words on one object"""
+    import eqsig
+    rng = ctx.rng
+    quick = ctx.tier == 'quick'
+    # fixed words: (label of n, ...) resolved against N = default padded length of the CURRENT record, L = its number of samples
+    FIXED = [
+        ['n=N', 'n=N+1'], ['n=N+1', 'n=N'], ['read', 'n=N+1', 'n=N'], ['n=N+1', 'reset(same pad)'], ['n=L', 'n=L+1', 'n=L-1'], ['n=L+1', 'n=L'],
+        ['n=2N', 'n=2N+1', 'p2=1'], ['p2=1', 'n=2N+1'], ['p2=2', 'n=4N+1', 'p2=2'], ['n=N+1', 'band', 'n=N'], ['n=N-1', 'n=N-2'], ['n=N+3', 'n=N+2'],
+        ['read', 'reset(2x)', 'reset(back)'], ['n=2N+1', 'reset(2x)'], ['p2=1', 'reset(2x)', 'p2=0'], ['n=N+1', 'same freqs again', 'n=N'],
+        ['n=N', 'freqs', 'n=N+1', 'freqs back'],
+    ]
+    ops_rand = ['n=N', 'n=N+1', 'n=N-1', 'n=2N', 'n=2N+1', 'n=L', 'n=L+1', 'n=L-1', 'p2=0', 'p2=1', 'p2=2', 'reset(same pad)', 'reset(2x)', 'reset(other)', 'band', 'read',
+                'n=prev+1', 'n=prev-1', 'n=prev^1']
+    words = [(w, True) for w in FIXED] + [([rng.choice(ops_rand) for _ in range(rng.randint(2, 6))], False) for _ in range(10 if quick else 150)]
+    for i, (word, fixed) in enumerate(words):
+        _x3_fas_word(ctx, word, fixed, rng.getrandbits(48), sample=i == 0)
+
+
+def _x3_fas_word(ctx, word, fixed, wseed, sample=False):
+    """one word of (a); every random choice from a PRNG seeded with wseed, so that (word, fixed, wseed) replays the case"""
+    import random
+    import eqsig
+    rng = random.Random(wseed)
+    rp = {'x3_family': 'fas', 'x3_word': list(word), 'x3_fixed': bool(fixed), 'x3_word_seed': wseed}
+    npts = rng.choice([33, 48, 64, 100, 129, 200]) if fixed else rng.randint(9, 260)
+    dt = rng.choice([0.01, 0.02, 0.005, 0.1])
+    v = gen.noise_record(rng, npts) + np.sin(2 * math.pi * rng.uniform(0.05, 0.4) * np.arange(npts))
+    v0 = v.copy()
+    nyq = 0.5 / dt
+    custom = rng.random() < 0.5
+    sm = np.exp(np.linspace(math.log(nyq / 60), math.log(nyq * 0.9), rng.randint(4, 24))) if custom else np.logspace(np.log10(0.1), np.log10(30), 50)
+    sm_first = sm.copy()
+    cls = rng.choice([eqsig.Signal, eqsig.AccSignal])
+    band = 40
+    with (no_probe() if fixed else contextlib.nullcontext()):
+        o = cls(v.copy(), dt, smooth_fa_freqs=sm.copy()) if custom else cls(v.copy(), dt)
+        fa_kw = None
+        prev_n = _x3_pad(npts)
+        hist, held = [], []
+        ctx.count_case(('x3-fas', tuple(word), v.tobytes(), dt, sm.tobytes()), True,
+                       sample={'fn': 'Signal.gen_fa_spectrum / gen_smooth_fa_spectrum history', 'word': word, 'npts': npts, 'dt': dt} if sample else None)
+        for op in word:
+            N, L = _x3_pad(len(v)), len(v)
+            regen = True
+            if op.startswith('n='):
+                n = {'n=N': N, 'n=N+1': N + 1, 'n=N-1': N - 1, 'n=N-2': N - 2, 'n=N+2': N + 2, 'n=N+3': N + 3, 'n=2N': 2 * N, 'n=2N+1': 2 * N + 1, 'n=4N+1': 4 * N + 1,
+                     'n=L': L, 'n=L+1': L + 1, 'n=L-1': L - 1, 'n=prev+1': prev_n + 1, 'n=prev-1': prev_n - 1, 'n=prev^1': prev_n ^ 1}[op]
+                n = max(int(n), 4)
+                fa_kw = {'n': n}
+                o.gen_fa_spectrum(n=n)
+                prev_n = n
+                op = f'gen_fa_spectrum(n={n})'
+            elif op.startswith('p2='):
+                k = int(op[3:])
+                fa_kw = {'p2_plus': k}
+                o.gen_fa_spectrum(p2_plus=k)
+                prev_n = N * 2 ** k
+                op = f'gen_fa_spectrum(p2_plus={k})'
+            elif op.startswith('reset'):
+                if op == 'reset(same pad)':          # another record whose DEFAULT padded length is the last padded length rounded down to even (or its own)
+                    tgt = prev_n - (prev_n % 2)
+                    newlen = rng.randint(tgt // 2 + 1, tgt) if tgt >= 4 and tgt & (tgt - 1) == 0 else rng.randint(N // 2 + 1, N)
+                elif op == 'reset(2x)':
+                    newlen = rng.randint(N + 1, 2 * N)
+                elif op == 'reset(back)':
+                    newlen = len(v0)
+                else:
+                    newlen = rng.randint(9, 260)
+                v = v0.copy() if op == 'reset(back)' else gen.noise_record(rng, newlen) + 0.5
+                o.reset_values(v.copy())
+                fa_kw = None
+                prev_n = _x3_pad(len(v))
+                band = 40
+                regen = rng.random() < 0.5           # a value reset drops both caches: a plain read must do
+                op = f'reset_values({len(v)} samples)'
+            elif op == 'band':
+                band = rng.choice([b for b in BANDS if b != band])
+            elif op in ('freqs', 'freqs back', 'same freqs again'):
+                sm = sm_first.copy() if op == 'freqs back' else (sm.copy() if op == 'same freqs again' else np.linspace(sm[0], sm[-1], len(sm)))
+                o.smooth_fa_freqs = sm.copy()
+                band = 40
+                regen = False
+            elif op == 'read':
+                regen = False
+                if fa_kw is not None and hist and hist[-1].startswith('gen_fa'):
+                    regen = True
+            if regen:
+                o.gen_smooth_fa_spectrum(band=band)
+                op += f' + gen_smooth_fa_spectrum(band={band})'
+            hist.append(op)
+            ctx.hist('fas-regeneration-history/' + op.split('(')[0].split(' ')[0])
+            hin = {'start values': v0, 'dt': dt, 'cls': cls.__name__, 'smooth_fa_frequencies at the start': sm_first if custom else 'constructor default', 'history': list(hist),
+                   'current values': v, 'band of the last generation': band, **rp}
+            sm = _x3_judge(ctx, o, cls, v, dt, sm, band, fa_kw, hin, held)
+
+
+def x3_range_words(ctx):
+    """(b) words over the entry points of the smoothing frequencies that return to an earlier (range, count)"""
+    import eqsig
+    rng = ctx.rng
+    quick = ctx.tier == 'quick'
+    D = ((0.1, 30), 50)                                   # the constructor's default range and count
+    # a step: ('by_range', key) / ('lin', setter) / ('lin-other-ends', setter) / ('log-same', setter) / ('gen', kind) / ('range=', key) / ('points=', key) / ('read',)
+    # keys 'D' (default), 'A', 'B' name (range, count) pairs drawn per word; 'A~' = the range of A with the count of the current frequencies, …
+    S = ['smooth_fa_freqs', 'smooth_fa_frequencies']
+    FIXED = [
+        [('lin', S[0]), ('by_range', 'D')], [('lin', S[1]), ('by_range', 'D')], [('gen', 'lin'), ('by_range', 'D')], [('lin-other-ends', S[0]), ('by_range', 'D')],
+        [('range=', 'A'), ('by_range', 'D')], [('points=', 'A'), ('points=', 'D'), ('lin', S[0]), ('by_range', 'D')],
+        [('by_range', 'A'), ('lin', S[0]), ('by_range', 'A')], [('by_range', 'A'), ('lin-other-ends', S[1]), ('by_range', 'A')], [('by_range', 'A'), ('gen', 'lin'), ('by_range', 'A')],
+        [('by_range', 'A'), ('range=', 'B'), ('by_range', 'A')], [('by_range', 'A'), ('points=', 'B'), ('points=', 'A'), ('by_range', 'A')],
+        [('by_range', 'A'), ('by_range', 'B'), ('by_range', 'A')], [('by_range', 'A'), ('by_range', 'A')], [('by_range', 'A'), ('by_range', 'A#B'), ('lin', S[0]), ('by_range', 'A#B')],
+        [('by_range', 'A'), ('by_range', 'B#A'), ('by_range', 'A')], [('by_range', 'A'), ('lin', S[0]), ('by_range', 'B#A'), ('by_range', 'A')],
+        [('ctor-freqs', 'A'), ('by_range', 'A')], [('ctor-range', 'A'), ('lin', S[1]), ('by_range', 'A#D')], [('ctor-range', 'A'), ('gen', 'log-same'), ('gen', 'lin'), ('by_range', 'A#D')],
+        [('lin', S[0]), ('log-same', S[0])], [('by_range', 'A'), ('lin', S[0]), ('range=', 'A')], [('by_range', 'A'), ('lin', S[0]), ('points=', 'A')],
+        [('lin', S[0]), ('reset',), ('by_range', 'D')], [('gen', 'lin'), ('gen', 'band'), ('by_range', 'D'), ('gen', 'band')],
+    ]
+
+    def rand_word():
+        w = []
+        for _ in range(rng.randint(2, 4)):
+            k = rng.choice(['by_range', 'by_range', 'lin', 'lin-other-ends', 'log-same', 'gen', 'range=', 'points=', 'read', 'reset'])
+            if k == 'by_range':
+                w.append((k, rng.choice(['D', 'A', 'B', 'A#B', 'B#A', 'A#D', 'D#A'])))
+            elif k in ('lin', 'lin-other-ends', 'log-same'):
+                w.append((k, rng.choice(S)))
+            elif k == 'gen':
+                w.append((k, rng.choice(['lin', 'log-same', 'band'])))
+            elif k in ('range=', 'points='):
+                w.append((k, rng.choice(['D', 'A', 'B'])))
+            else:
+                w.append((k,))
+        w.append(('by_range', rng.choice([s[1] for s in w if s[0] == 'by_range'] + ['D'])))       # return to an earlier pair
+        return w
+
+    words = [(w, True) for w in FIXED] + [(rand_word(), False) for _ in range(12 if quick else 200)]
+    for i, (word, fixed) in enumerate(words):
+        _x3_range_word(ctx, word, fixed, rng.getrandbits(48), sample=i == 0)
+
+
+def _x3_range_word(ctx, word, fixed, wseed, sample=False):
+    """one word of (b); every random choice from a PRNG seeded with wseed, so that (word, fixed, wseed) replays the case"""
+    import random
+    import eqsig
+    rng = random.Random(wseed)
+    word = [tuple(s_) for s_ in word]
+    D = ((0.1, 30), 50)
+    rp = {'x3_family': 'range', 'x3_word': [list(s_) for s_ in word], 'x3_fixed': bool(fixed), 'x3_word_seed': wseed}
+    npts = rng.randint(24, 200)
+    dt = rng.choice([0.01, 0.02, 0.005])
+    nyq = 0.5 / dt
+    v = gen.noise_record(rng, npts) * np.exp(-np.arange(npts) / (npts / 3)) + np.sin(2 * math.pi * rng.uniform(0.03, 0.3) * np.arange(npts))
+    pairs = {'D': D,
+             'A': ((nyq / rng.choice([40, 64, 100]), nyq * rng.choice([0.5, 0.8])), rng.randint(5, 40)),
+             'B': ((nyq / rng.choice([30, 150]), nyq * rng.choice([0.3, 0.95])), rng.randint(5, 40))}
+    for a in 'ABD':
+        for b in 'ABD':
+            pairs[a + '#' + b] = (pairs[a][0], pairs[b][1])       # the range of a with the count of b
+    cls = rng.choice([eqsig.Signal, eqsig.AccSignal])
+    with (no_probe() if fixed else contextlib.nullcontext()):
+        first = word[0]
+        if first[0] == 'ctor-freqs':
+            cur_sm = np.linspace(pairs[first[1]][0][0], pairs[first[1]][0][1], pairs[first[1]][1])
+            o = cls(v.copy(), dt, smooth_fa_freqs=cur_sm.copy())
+            hist = [f'constructor(smooth_fa_freqs=linspace{pairs[first[1]]})']
+        elif first[0] == 'ctor-range':
+            o = cls(v.copy(), dt, smooth_freq_range=pairs[first[1]][0])
+            cur_sm = np.logspace(np.log10(pairs[first[1]][0][0]), np.log10(pairs[first[1]][0][1]), 50, base=10)
+            hist = [f'constructor(smooth_freq_range={pairs[first[1]][0]})']
+        else:
+            o = cls(v.copy(), dt)
+            cur_sm = np.logspace(np.log10(0.1), np.log10(30), 50, base=10)
+            hist = ['constructor(default)']
+        cur_v, cur_band, held = v.copy(), 40, []
+        ctx.count_case(('x3-range', repr(word), v.tobytes(), dt), True,
+                       sample={'fn': 'smoothing-frequency entry points returning to an earlier (range, count)', 'word': [list(s_) for s_ in word]} if sample else None)
+        hin = {'start values': v, 'dt': dt, 'cls': cls.__name__, 'history': list(hist), 'band of the last generation': cur_band, **rp}
+        if rng.random() < 0.8:
+            cur_sm = _x3_judge(ctx, o, cls, cur_v, dt, cur_sm, cur_band, None, hin, held)
+        for step in word:
+            k = step[0]
+            loose = False
+            if k.startswith('ctor'):
+                continue
+            if k == 'by_range':
+                R, n = pairs[step[1]]
+                lim = rng.choice([tuple, list, np.array])(R)
+                o.set_smooth_fa_frequecies_by_range(lim, n)
+                cur_sm = np.logspace(np.log10(R[0]), np.log10(R[1]), n, base=10)
+                cur_band = 40
+                op = f'set_smooth_fa_frequecies_by_range({R}, {n})'
+            elif k in ('lin', 'lin-other-ends', 'log-same'):
+                m = len(cur_sm)
+                if k == 'lin':
+                    new = np.linspace(cur_sm[0], cur_sm[-1], m)                  # the same count and ends on a linear axis
+                elif k == 'lin-other-ends':
+                    new = np.linspace(cur_sm[0] * rng.choice([0.5, 1.5, 2.0]), cur_sm[-1] * rng.choice([0.4, 0.9]), m)
+                else:
+                    new = np.exp(np.linspace(math.log(cur_sm[0]), math.log(cur_sm[-1]), m))     # log-spaced again (not bit-identical to logspace)
+                setattr(o, step[1], list(new) if rng.random() < 0.3 else np.array(new))
+                cur_sm, cur_band = np.array(new), 40
+                op = f'{step[1]} = {k} ({m} points {new[0]:.6g}..{new[-1]:.6g})'
+            elif k == 'gen':
+                if step[1] == 'band':
+                    cur_band = rng.choice([b for b in BANDS if b != cur_band])
+                    o.gen_smooth_fa_spectrum(band=cur_band)
+                    op = f'gen_smooth_fa_spectrum(band={cur_band})'
+                else:
+                    m = len(cur_sm)
+                    new = np.linspace(cur_sm[0], cur_sm[-1], m) if step[1] == 'lin' else np.exp(np.linspace(math.log(cur_sm[0]), math.log(cur_sm[-1]), m))
+                    cur_band = rng.choice(BANDS)
+                    o.gen_smooth_fa_spectrum(smooth_fa_freqs=np.array(new), band=cur_band)
+                    cur_sm = np.array(new)
+                    op = f'gen_smooth_fa_spectrum(smooth_fa_freqs={step[1]} ({m} points), band={cur_band})'
+            elif k == 'range=':
+                R = pairs[step[1]][0]
+                o.smooth_freq_range = R
+                cur_sm = np.logspace(np.log10(R[0]), np.log10(R[1]), len(cur_sm), base=10)
+                cur_band, loose = 40, True
+                op = f'smooth_freq_range = {R}'
+            elif k == 'points=':
+                m = pairs[step[1]][1]
+                o.smooth_freq_points = m
+                cur_sm = np.logspace(np.log10(cur_sm[0]), np.log10(cur_sm[-1]), m, base=10)
+                cur_band, loose = 40, True
+                op = f'smooth_freq_points = {m}'
+            elif k == 'reset':
+                cur_v = gen.noise_record(rng, rng.randint(24, 200)) + 0.25
+                o.reset_values(cur_v.copy())
+                cur_band = 40
+                op = f'reset_values({len(cur_v)} samples)'
+            else:
+                op = 'read'
+            hist.append(op)
+            ctx.hist('smoothing-range-word/' + k)
+            hin = {'start values': v, 'dt': dt, 'cls': cls.__name__, 'history': list(hist), 'current values': cur_v, 'band of the last generation': cur_band, **rp}
+            cur_sm = _x3_judge(ctx, o, cls, cur_v, dt, cur_sm, cur_band, None, hin, held, loose_grid=loose)
+
+
+def extras3(ctx):
+    x3_fas_regen(ctx)
+    x3_range_words(ctx)
+
+
+import contextlib
+from core import no_probe
+
+_run_main3 = run
+_replay_case_main3 = replay_case
+
+
+def replay_case(ctx, payload):
+    inp = payload['inputs']
+    if 'x3_family' not in inp and 'history' in inp and 'values' not in inp and 'fa_frequencies' not in inp:
+        # a history of extras2 (x2_small): its random choices derive from (seed, tier) only -> re-run the module as recorded
+        sub = type(ctx)(ctx.prop, payload.get('tier', ctx.tier), int(payload.get('seed', ctx.seed)))
+        run(sub)
+        left = [f for f in sub.oracle_failures if f['clause'] == payload.get('clause')]
+        for f in left[:3]:
+            print('still failing:', f['clause'], f['detail'])
+        return not left
+    if 'x3_family' not in inp:
+        return _replay_case_main3(ctx, payload)
+    sub = type(ctx)(ctx.prop, ctx.tier, ctx.seed)
+    (_x3_fas_word if inp['x3_family'] == 'fas' else _x3_range_word)(sub, inp['x3_word'], inp['x3_fixed'], inp['x3_word_seed'])
+    sub.pending = []
+    for f in sub.oracle_failures:
+        print('still failing:', f['clause'], f['detail'])
+    return not sub.oracle_failures
+
+
+def run(ctx):
+    _run_main3(ctx)
+    extras3(ctx)
+    ctx.flush()
